@@ -17,9 +17,12 @@ Hostile variants: byte-level patches (same length, inside existing IDENT/ASCII/U
 DLIS files, generated LAS 2.0 text, a patched LIS copy.  A case dict records the patches themselves, so replay_case
 does not depend on the random stream.  A producer that *raises* on a hostile input is counted and noted, not failed.
 """
+import functools
 import io
 import os
 import re
+import shutil
+import tempfile
 
 from gen.c18_xmlcheck import parse_both, classify_not_wf, representable, is_xml_char, ILLEGAL_RE
 
@@ -40,13 +43,22 @@ DLIS_DIR, LAS_DIR, LIS_DIR = 'example_data/RP66V1/data', 'example_data/LAS/data'
 
 # ------------------------------------------------------------------ common helpers
 
-def _repo():
-    import core
-    return core.REPO
-
-
 def _abs(rel):
-    return os.path.join(_repo(), rel)
+    import core
+    return os.path.join(core.REPO, rel)     # never a hard-coded /repo: mutation experiments point REPO at a copy
+
+
+def _oracle(fn):
+    """One oracle evaluation: counted, given a private working directory under ctx.scratch that is removed afterwards."""
+    @functools.wraps(fn)
+    def wrapper(ctx, case):
+        ctx.count('oracle_cases')
+        work = tempfile.mkdtemp(prefix=case['op'] + '_', dir=ctx.scratch)
+        try:
+            return fn(ctx, case, work)
+        finally:
+            shutil.rmtree(work, ignore_errors=True)
+    return wrapper
 
 
 def _raised(ctx, producer, exc):
@@ -74,15 +86,17 @@ def _mismatch(ctx, case, msgs):
     return False, detail
 
 
-def _scratch_copy(ctx, rel, edits, name=None):
-    """Copy of an example file in ctx.scratch with the byte patches [[offset, hex], ...] applied."""
-    data = bytearray(open(_abs(rel), 'rb').read())
-    for off, hx in edits:
+def _input(work, case):
+    """The input file of a case: the example file itself, or a copy in `work` with the byte patches
+    case['edits'] = [[offset, hex], ...] applied (same length, so the file keeps its structure)."""
+    if not case['edits']:
+        return _abs(case['file'])
+    data = bytearray(open(_abs(case['file']), 'rb').read())
+    for off, hx in case['edits']:
         new = bytes.fromhex(hx)
         data[off:off + len(new)] = new
-    d = os.path.join(ctx.scratch, 'in_%d' % ctx.stats.get('oracle_cases', 0))
-    os.makedirs(d, exist_ok=True)
-    path = os.path.join(d, name or os.path.basename(rel))
+    os.makedirs(os.path.join(work, 'in'), exist_ok=True)
+    path = os.path.join(work, 'in', os.path.basename(case['file']))
     with open(path, 'wb') as fh:
         fh.write(bytes(data))
     return path
@@ -105,13 +119,35 @@ def _hostile_bytes(rng, kind, old):
     return bytes(new)
 
 
-def _all_text(root):
-    return ''.join(root.itertext()), {v for e in root.iter() for v in e.attrib.values()}
+def _same(doc, data, comment=False):
+    """A parsed string equals the string given to the writer.  Where the data cannot be carried verbatim by any writer
+    (F13: a character outside XML Char; F20: '--' or a final '-' in a comment) a short replacement of the offending
+    characters is accepted, so that a repair of those findings does not turn into a violation here."""
+    if doc == data or doc is None:
+        return doc == data
+    if comment and ('--' in data or data.endswith('-')):
+        return re.sub(r'[-\s]', '', doc) == re.sub(r'[-\s]', '', data)
+    if not representable(data):
+        return re.fullmatch('.{0,8}'.join(re.escape(x) for x in ILLEGAL_RE.split(data)), doc, re.S) is not None
+    return False
 
 
-def _quiet():
-    import logging
-    logging.disable(logging.CRITICAL)
+def _eq(doc, data):
+    """Structural equality of parsed and written items (tuples / lists / dicts of strings), strings by _same."""
+    if isinstance(data, str) and isinstance(doc, str):
+        return _same(doc, data)
+    if isinstance(data, (tuple, list)) and isinstance(doc, (tuple, list)) and len(doc) == len(data):
+        if len(data) == 2 and data[0] == 'comment' and doc[0] == 'comment':
+            return _same(doc[1], data[1], comment=True)
+        return all(_eq(a, b) for a, b in zip(doc, data))
+    if isinstance(data, dict) and isinstance(doc, dict) and sorted(doc) == sorted(data):
+        return all(_eq(doc[k], data[k]) for k in data)
+    return doc == data
+
+
+def _first_diff(what, got, want):
+    k = next((k for k in range(min(len(got), len(want))) if not _eq(got[k], want[k])), min(len(got), len(want)))
+    return f'{what}[{k}]: document {repr(got[k:k+1])[:300]} data {repr(want[k:k+1])[:300]} ({len(got)} vs {len(want)} items)'
 
 
 # ------------------------------------------------------------------ 1. RP66V1 IndexXML
@@ -217,7 +253,7 @@ def _check_rle(elem, expected, hexed, what, msgs):
 
 def _attrs_equal(elem, expected, what, msgs):
     for k, v in expected.items():
-        if elem.get(k) != v:
+        if not _same(elem.get(k), v):
             msgs.append(f'{what}@{k}: document has {elem.get(k)!r}, data is {v!r}')
 
 
@@ -278,10 +314,8 @@ def _check_index_doc(li, root, private):
                                        'units': L(a.units)}, wa, msgs)
                     want = [_value_repr(v) for v in (a.value or [])]
                     got = [(v.tag, dict(v.attrib)) for v in x_a]
-                    if got != want:
-                        k = next((k for k in range(min(len(got), len(want))) if got[k] != want[k]), min(len(got), len(want)))
-                        msgs.append(f'{wa}: value[{k}] document {got[k:k+1]!r} data {want[k:k+1]!r} '
-                                    f'({len(got)} vs {len(want)} values)')
+                    if not _eq(got, want):
+                        msgs.append(_first_diff(wa + ' value', got, want))
                     for (tag, at), v in zip(got, a.value or []):
                         if isinstance(v, float) and at.get('type') == 'float' and v == v and float(at['value']) != v:
                             msgs.append(f'{wa}: float {float(v).hex()} reads back {float(at["value"]).hex()}')
@@ -315,12 +349,11 @@ def _check_index_doc(li, root, private):
     return msgs
 
 
-def _do_indexxml(ctx, case):
+@_oracle
+def _do_indexxml(ctx, case, work):
     from TotalDepth.RP66V1 import IndexXML
     from TotalDepth.RP66V1.core import LogicalFile
-    ctx.count('oracle_cases')
-    path = _scratch_copy(ctx, case['file'], case['edits']) if case['edits'] else _abs(case['file'])
-    out = io.StringIO()
+    path, out = _input(work, case), io.StringIO()
     try:
         with LogicalFile.LogicalIndex(path) as li:
             try:
@@ -336,7 +369,7 @@ def _do_indexxml(ctx, case):
             msgs = _check_index_doc(li, res['lxml_root'], case['private'])
             values = {v for e in res['lxml_root'].iter() for v in e.attrib.values()}
             msgs += [f'injected string {s!r} held in memory but not an attribute value of the document'
-                     for s in arrived if case['private'] and s not in values]
+                     for s in arrived if case['private'] and representable(s) and s not in values]
     except Exception as e:
         return _raised(ctx, 'indexxml:read', e)
     if msgs:
@@ -363,16 +396,16 @@ def _run_indexxml(ctx, cases):
 
 # ------------------------------------------------------------------ 2. RP66V1 ScanHTML
 
-def _do_scanhtml(ctx, case):
+@_oracle
+def _do_scanhtml(ctx, case, work):
     from TotalDepth.RP66V1 import ScanHTML
     from TotalDepth.RP66V1.core import LogicalFile
     from TotalDepth.common import Slice
-    ctx.count('oracle_cases')
-    path = _scratch_copy(ctx, case['file'], case['edits']) if case['edits'] else _abs(case['file'])
-    out = io.StringIO()
+    path, out = _input(work, case), io.StringIO()
     try:
         with LogicalFile.LogicalIndex(path) as li:
-            held = sorted({s.decode('latin-1') for r, s in _dlis_strings(li) if r in ('value', 'label', 'ref')})
+            every = sorted({s.decode('latin-1') for _r, s in _dlis_strings(li)})
+            held = sorted({s.decode('latin-1') for r, s in _dlis_strings(li) if r in ('value', 'label', 'ref')})   # always shown
     except Exception as e:
         return _raised(ctx, 'scanhtml:read', e)
     try:
@@ -381,8 +414,8 @@ def _do_scanhtml(ctx, case):
         return _raised(ctx, 'scanhtml:write', e)
     res = parse_both(out.getvalue())
     if not res['ok']:
-        return _not_wf(ctx, case, res, held)
-    text, _ = _all_text(res['lxml_root'])
+        return _not_wf(ctx, case, res, every)
+    text = ''.join(res['lxml_root'].itertext())     # a '\n' in a table cell is written as <br/>
     msgs = [f'string {s!r} held in memory does not appear in the page text' for s in held
             if representable(s) and s.replace('\n', '') not in text]
     if msgs:
@@ -394,13 +427,12 @@ def _do_scanhtml(ctx, case):
 DIR_NAMES = ['plain', 'a&b', "q'uote\"s", 'lt<gt>', 'caf\xe9', 'dash--dir', 'x-']
 
 
-def _do_scanhtml_dir(ctx, case):
-    """scan_dir_or_file on <scratch>/in/<hostile directory name>/MINIMAL_FILE.dlis: the index pages must parse."""
-    import shutil
+@_oracle
+def _do_scanhtml_dir(ctx, case, top):
+    """scan_dir_or_file on <work>/in/<hostile directory name>/MINIMAL_FILE.dlis: every page, the indexes included, must
+    parse (ScanHTML.py:839 puts the output path into a comment) and the top index must show the directory names."""
     from TotalDepth.RP66V1 import ScanHTML
     from TotalDepth.common import Slice
-    ctx.count('oracle_cases')
-    top = os.path.join(ctx.scratch, 'dir_%d' % ctx.stats['oracle_cases'])
     for name in case['dirs']:
         os.makedirs(os.path.join(top, 'in', name))
         shutil.copy(_abs(f'{DLIS_DIR}/MINIMAL_FILE.dlis'), os.path.join(top, 'in', name, 'MINIMAL_FILE.dlis'))
@@ -467,20 +499,16 @@ def _gen_las_text(rng, ctrl):
     return '\n'.join(lines) + '\n'
 
 
-def _do_lashtml(ctx, case):
+@_oracle
+def _do_lashtml(ctx, case, work):
     from TotalDepth.LAS import LASToHTML
     from TotalDepth.LAS.core import LASRead
     from TotalDepth.common import Slice, np_summary
-    ctx.count('oracle_cases')
-    d = os.path.join(ctx.scratch, 'las_%d' % ctx.stats['oracle_cases'])
-    os.makedirs(d, exist_ok=True)
+    path, html = _abs(case.get('file') or ''), os.path.join(work, 'out.html')
     if case.get('text') is not None:
-        path = os.path.join(d, 'hostile.las')
+        path = os.path.join(work, 'hostile.las')
         with open(path, 'w', encoding='utf-8', newline='') as fh:
             fh.write(case['text'])
-    else:
-        path = _abs(case['file'])
-    html = os.path.join(d, 'out.html')
     try:
         las = LASRead.LASRead(path, path, raise_on_error=False)
     except Exception as e:
@@ -514,9 +542,8 @@ def _do_lashtml(ctx, case):
                    if len(r) == 17 and all(c.tag == XHTML + 'td' for c in r)]
     for what, got, want in (('section table cells', got_cells, cells), ('~O lines', got_pres, pres),
                             ('array table channel/units/long name', got_triples, [[x.replace('\n', '') for x in t] for t in triples])):
-        if got != want:
-            k = next((k for k in range(min(len(got), len(want))) if got[k] != want[k]), min(len(got), len(want)))
-            msgs.append(f'{what}[{k}]: document {got[k:k+1]!r} data {want[k:k+1]!r} ({len(got)} vs {len(want)} items)')
+        if not _eq(got, want):
+            msgs.append(_first_diff(what, got, want))
     if case.get('text') is not None:   # did the hostile tokens reach the reader at all?
         ctx.count('lashtml_tokens_held_by_reader', sum(1 for t in LAS_TOKENS + LAS_CTRL if t in case['text'] and any(t in s for s in strings)))
     if msgs:
@@ -555,10 +582,10 @@ def _illegal_strings_from_input(text, raw):
     return out
 
 
-def _lis_pages(ctx, path, tag):
-    """Run LisToHtml on one file; {file name: text} of the pages written (None, detail) if the producer raised."""
+def _lis_pages(work, path):
+    """Run LisToHtml on one file; {file name: text} of the pages written."""
     from TotalDepth.LIS import LisToHtml
-    d = os.path.join(ctx.scratch, 'lis_%s_%d' % (tag, ctx.stats['oracle_cases']))
+    d = os.path.join(work, 'out')
     LisToHtml.processFile(path, os.path.join(d, os.path.basename(path)), False)
     return {f: open(os.path.join(d, f), 'rb').read().decode('utf-8') for f in sorted(os.listdir(d)) if f.endswith(('.html', '.svg'))}
 
@@ -566,22 +593,23 @@ def _lis_pages(ctx, path, tag):
 def _lis_targets(ctx, rel):
     """Printable runs of the example file that are displayed on its (unpatched) page: [(offset, bytes)]."""
     if ('lis', rel) not in _CACHE:
-        raw = open(_abs(rel), 'rb').read()
+        raw, work = open(_abs(rel), 'rb').read(), tempfile.mkdtemp(prefix='lisprobe_', dir=ctx.scratch)
         try:
-            shown = re.sub(r'<[^>]*>', '\x00', ''.join(_lis_pages(ctx, _abs(rel), 'probe').values()))
+            shown = re.sub(r'<[^>]*>', '\x00', ''.join(_lis_pages(work, _abs(rel)).values()))
         except Exception:
             shown = ''
+        shutil.rmtree(work, ignore_errors=True)
         runs = [(m.start(), m.group(0)) for m in re.finditer(rb'[A-Za-z][A-Za-z0-9 ]{5,30}[A-Za-z0-9]', raw)]
         _CACHE[('lis', rel)] = [(o, r) for o, r in runs if r.decode() in shown and raw.count(r) == 1]
     return _CACHE[('lis', rel)]
 
 
-def _do_lishtml(ctx, case):
-    ctx.count('oracle_cases')
-    path = _scratch_copy(ctx, case['file'], case['edits']) if case['edits'] else _abs(case['file'])
+@_oracle
+def _do_lishtml(ctx, case, work):
+    path = _input(work, case)
     raw = open(path, 'rb').read()
     try:
-        pages = _lis_pages(ctx, path, 'run')
+        pages = _lis_pages(work, path)
     except Exception as e:
         return _raised(ctx, 'lishtml:write', e)
     if not pages:
@@ -703,9 +731,9 @@ def _svg_norm(events):
     return out
 
 
-def _do_svg(ctx, case):
+@_oracle
+def _do_svg(ctx, case, _work):
     from gen.c18_xmlcheck import lxml_events, dom_events
-    ctx.count('oracle_cases')
     try:
         text, ev, strings, comments = _svg_doc(case['seed'], case['kind'])
     except Exception as e:
@@ -716,9 +744,8 @@ def _do_svg(ctx, case):
     msgs = []
     for who, got in (('lxml', _svg_norm(lxml_events(res['lxml_root']))), ('expat', _svg_norm(dom_events(res['dom'])))):
         got = [(e[0], e[1], tuple(sorted(e[2]))) if e[0] == 'start' else e for e in got]
-        if got != ev:
-            k = next((k for k in range(min(len(got), len(ev))) if got[k] != ev[k]), min(len(got), len(ev)))
-            msgs.append(f'{who} event[{k}]: document {got[k:k+1]!r} written {ev[k:k+1]!r}')
+        if not _eq(got, ev):
+            msgs.append(_first_diff(who + ' event', got, ev))
     if msgs:
         return _mismatch(ctx, case, msgs)
     ctx.nontriv(('svg', case['seed'], case['kind']))
@@ -737,12 +764,11 @@ def _run_svg(ctx):
 _OUTP = re.compile(rb'EA\x04\x00OUTP    ([A-Z0-9]{3}[A-Z0-9 ])EA')
 
 
-def _do_plot(ctx, case):
+@_oracle
+def _do_plot(ctx, case, work):
     import argparse
     from TotalDepth import PlotLogs
-    ctx.count('oracle_cases')
-    path = _scratch_copy(ctx, case['file'], case['edits']) if case['edits'] else _abs(case['file'])
-    d = os.path.join(ctx.scratch, 'plot_%d' % ctx.stats['oracle_cases'])
+    path, d = _input(work, case), os.path.join(work, 'out')
     opts = argparse.Namespace(recurse=False, keepGoing=True, LgFormat=[], apiHeader=case['api'], LgFormat_min=case['lgmin'], scale=0)
     try:
         info = PlotLogs.PlotLogPasses(path, os.path.join(d, 'p'), opts).plotLogInfo
@@ -770,12 +796,10 @@ def _run_plot(ctx):
     lis = sorted(os.listdir(_abs(LIS_DIR)))
     base = {'op': 'plot', 'edits': [], 'injected': [], 'index': True}
     combos = [(f, api, 0, True) for f in lis[:2] for api in ((True, False) if ctx.tier == 'thorough' else (True,))]
-    if ctx.tier == 'thorough':
-        combos += [(f, False, 4, True) for f in lis]
-        combos += [(f, True, 3, False) for f in sorted(os.listdir(_abs(LAS_DIR)))]
+    if ctx.tier == 'thorough':     # LgFormat XML plot descriptions.  (LAS input cannot be plotted by PlotLogs at all in
+        combos += [(f, False, 4, True) for f in lis]   # this version: 'LASRead' object has no attribute 'hasOutpMnem'.)
     for f, api, lgmin, expect in combos:
-        rel = f'{LAS_DIR}/{f}' if f.lower().endswith('.las') else f'{LIS_DIR}/{f}'
-        _do_plot(ctx, dict(base, file=rel, kind='example', api=api, lgmin=lgmin, expect_plots=expect))
+        _do_plot(ctx, dict(base, file=f'{LIS_DIR}/{f}', kind='example', api=api, lgmin=lgmin, expect_plots=expect))
     for i in range(ctx.n(2, 6)):      # a PRES table whose OUTP mnemonic holds '--' (reaches comment()) or markup
         rel = f'{LIS_DIR}/{lis[i % 2]}'
         found = list(_OUTP.finditer(open(_abs(rel), 'rb').read()))
@@ -787,14 +811,19 @@ def _run_plot(ctx):
 
 
 def run(ctx):
-    _quiet()
-    cases = list(_dlis_cases(ctx, ctx.n(28, 280)))
-    _run_indexxml(ctx, cases)
-    _run_scanhtml(ctx, cases)
-    _run_lashtml(ctx)
-    _run_lishtml(ctx)
-    _run_svg(ctx)
-    _run_plot(ctx)
+    """All producer oracles (quick about half a minute, thorough a few minutes)."""
+    import logging
+    logging.disable(logging.CRITICAL)        # the readers log every oddity of a hostile file
+    try:
+        cases = list(_dlis_cases(ctx, ctx.n(28, 280)))
+        _run_indexxml(ctx, cases)
+        _run_scanhtml(ctx, cases)
+        _run_lashtml(ctx)
+        _run_lishtml(ctx)
+        _run_svg(ctx)
+        _run_plot(ctx)
+    finally:
+        logging.disable(logging.NOTSET)
     if RAISED:
         ctx.note('producers raised on hostile input (counted, not judged): ' + '; '.join(f'{p}: {t}: {m}' for p, t, m in RAISED))
 
@@ -805,6 +834,9 @@ _OPS = {'indexxml': _do_indexxml, 'scanhtml': _do_scanhtml, 'scanhtml_dir': _do_
 
 def replay_case(ctx, case):
     """Re-run one recorded case (the dict given to ctx.fail); returns (holds, detail)."""
-    _quiet()
-    case = {k: v for k, v in case.items() if k not in ('page', 'after')}
-    return _OPS[case['op']](ctx, case)
+    import logging
+    logging.disable(logging.CRITICAL)
+    try:
+        return _OPS[case['op']](ctx, {k: v for k, v in case.items() if k not in ('page', 'after')})
+    finally:
+        logging.disable(logging.NOTSET)
